@@ -63,6 +63,7 @@ def analyze(text):
     f.spans = []          # (start, end, prefix|None, kind)  kind: 'c' comment, 's' string, 'f' f-string
     f.plain = []          # (type, start, end, string, bracket_depth_before) for tokens outside f-strings
     f.names = []          # (start, end, string, inside_fstring)
+    f.inner = []          # (type, start, end, string): NAME/NUMBER/OP tokens inside the replacement fields of f-strings
     f.fstrings = []       # (start, end, quote, nested_same_quote: bool)
     f.stmts = []          # (first_line, last_line)
     fdepth = 0
@@ -105,6 +106,8 @@ def analyze(text):
                     nested_same = True
             if ty == T.NAME:
                 f.names.append((a, b, tok.string, True))
+            if ty in (T.NAME, T.NUMBER, T.OP):
+                f.inner.append((ty, a, b, tok.string))
         else:
             if ty == T.STRING:
                 f.spans.append((a, b, string_prefix(tok.string), "s"))
@@ -223,6 +226,13 @@ def check(f, obs):
                     fails.append(("real_code", a, "non-logical newline (bracket depth %d) became %r" % (bd, seg)))
                     break
         else:
+            # f-strings (every prefix spelling with an f, raw ones included) are left verbatim: the tokens that tokenize
+            # reports inside their replacement fields keep their characters (a ';' cannot occur there)
+            for (ty, a, b, s) in f.inner:
+                if rc[a:b] != text[a:b]:
+                    fails.append(("real_code", a, "token %r inside an f-string field became %r" % (text[a:b], rc[a:b])))
+                    break
+        if not fails or fails[-1][0] != "real_code":
             covered = [False] * len(text)
             for (ty, a, b, s, bd) in f.plain:
                 for i in range(a, min(b, len(text))):
